@@ -397,7 +397,16 @@ fn run_case(kind: &str, l: &[Sx]) -> String {
         "text" | "scan" => {
             let text = cps_to_string(&l[2..]);
             if kind == "text" {
-                match compile(&text) {
+                // long inputs are compiled on a thread with a small stack (192 KiB): at bounded nesting the parser's stack use must not grow with the LENGTH of
+                // the input, and a small stack shows such growth at a few hundred tokens instead of tens of thousands (an overflow aborts the process: CRASH).
+                // The result is printed and dropped on the main thread.
+                let r = if text.len() > 2000 {
+                    let t = text.clone();
+                    std::thread::Builder::new().stack_size(192 * 1024).spawn(move || compile(&t)).unwrap().join().unwrap()
+                } else {
+                    compile(&text)
+                };
+                match r {
                     Ok(e) => format!("R=ok:{}", show_expr(&e)),
                     Err(e) => format!("R=err:{}", show_cerr(&e)),
                 }
